@@ -2,6 +2,8 @@
 //! turmoil-io-uring. Serves C07, C10, C18.
 mod c07;
 mod c10;
+mod c18;
+mod c18sim;
 mod diff;
 mod durable;
 mod directed;
@@ -9,6 +11,7 @@ mod gen;
 mod model;
 mod ops;
 mod real;
+mod ring;
 mod san;
 mod simdrv;
 mod zones;
@@ -20,6 +23,9 @@ fn main() {
     match ctx.prop.as_str() {
         "C07" => c07::run(&ctx),
         "C10" => c10::run(&ctx),
+        "C18" => c18::run(&ctx),
+        "san" => san::main(&ctx),
+        "san-child" => san::child(&ctx.rest),
         other => {
             println!("INCONCLUSIVE property={other} not served by fsmodel");
             std::process::exit(2);
